@@ -431,6 +431,12 @@ func (s *safety) dischargePanicSite(p *Path, ix *pathIndex, e *Event, conds []Co
 			return true, "slice has the required constant length"
 		}
 		return false, "PutUintN target " + sl.Pretty() + " may be shorter than the number"
+	case "slice2array":
+		x, n := e.Args[0], e.Args[1]
+		if condHolds(conds, n, "<=", mkLen(x)) {
+			return true, "slice is at least as long as the array"
+		}
+		return false, fmt.Sprintf("conversion of %s to an array of %s elements panics when the slice is shorter", x.Pretty(), n.Pretty())
 	case "repeat-count":
 		if nonNegative(e.Args[0], conds) {
 			return true, "count non-negative on this arm"
@@ -601,7 +607,7 @@ func (s *safety) checkNoPanic(rep *Report, prefix string, key string, fn *ssa.Fu
 			switch e.Kind {
 			case EvPanicSite:
 				ok, why := s.dischargePanicSite(p, ix, e, conds)
-				rule := prefix + "1-" + map[string]string{"nilderef": "nil", "nilinvoke": "nil", "nilrecv": "nil", "index": "bounds", "slice": "bounds", "putuint": "bounds", "repeat-count": "bounds", "assert": "type-assertion", "divide": "arith", "shift": "arith", "panic": "explicit-panic"}[e.Mode]
+				rule := prefix + "1-" + map[string]string{"nilderef": "nil", "nilinvoke": "nil", "nilrecv": "nil", "index": "bounds", "slice": "bounds", "putuint": "bounds", "repeat-count": "bounds", "slice2array": "bounds", "assert": "type-assertion", "divide": "arith", "shift": "arith", "panic": "explicit-panic"}[e.Mode]
 				rep.Ob(rule, key+":"+e.Mode+"@"+site, ok, epos, e.Mode+" may panic: "+why)
 				if ok && len(rep.Samples) < 8 {
 					rep.Sample(map[string]interface{}{"root": key, "site": epos, "panic_site": e.String(), "discharged_by": why})
@@ -855,8 +861,8 @@ func boundedByInput(v *Val, conds []Cond) (bool, string) {
 			if a.Op == "buflen" {
 				return true, "min(…, buf.Len())"
 			}
-			if ok, _ := boundedByInput(a, conds); ok && !a.Contains(func(x *Val) bool { return x.Op == "wire" }) {
-				return true, "min with an input-independent bound"
+			if _, isC := a.Int64(); isC {
+				return true, "min with a constant bound"
 			}
 		}
 	}
@@ -1089,6 +1095,28 @@ func (a *Analysis) CheckC18(rep *Report) {
 					}
 				}
 			}
+			// a failing guard hidden inside an alternative of an inlined callee (or a completed loop iteration): the caller
+			// cannot tell that outcome from success – the refusal is swallowed whatever the function returns
+			var nested func(evs []*Event)
+			nested = func(evs []*Event) {
+				for _, ev := range evs {
+					for _, arm := range ev.Iter {
+						for _, c := range arm.Conds {
+							if c.V.Op != "binop" {
+								continue
+							}
+							for _, cand := range guardCandidates(c.V) {
+								if g, failing := overflowGuard(c, cand); g && failing {
+									rep.Ob("O2-overflow-returns-error", key+":swallowed:"+c.V.Pretty(), false, a.condPos(c, fn),
+										fmt.Sprintf("the overflow check %s fails inside a callee whose failing and succeeding outcomes look the same to its caller: the refusal is dropped", c.String()))
+								}
+							}
+						}
+						nested(arm.Events)
+					}
+				}
+			}
+			nested(p.Events)
 			for _, c := range failingGuards {
 				kind := pathKind(p)
 				rep.Ob("O2-overflow-returns-error", key+":"+c.V.Pretty(), kind == "err", a.P.Pos(c.Pos),
@@ -1113,6 +1141,16 @@ func (a *Analysis) CheckC18(rep *Report) {
 			continue
 		}
 		check(FuncName(pp.fn), pp.fn, pp.paths)
+	}
+	// O3: at and below the limit the value round-trips – a reader must not refuse a complete value. Every error path of
+	// a reader primitive that is not a failed read must be an exact availability check.
+	for _, pp := range a.allPrimPaths() {
+		if !hasEvent(pp.paths, isRead) || pp.err != nil {
+			continue
+		}
+		rej := a.spuriousRejections(pp.paths)
+		rep.Ob("O3-reader-accepts-values-at-the-limit", FuncName(pp.fn), len(rej) == 0, a.P.Pos(pp.fn.Pos()),
+			"the reader can refuse a complete value: "+strings.Join(rej, "; "))
 	}
 	rep.Counts["length_prefix_writes"] = nprefix
 	rep.Counts["writer_primitives_and_instances"] = np
